@@ -262,6 +262,9 @@ OPTION_VECTORS = [
     ["--at-level=-1", "--only-level", "3"], ["--only-level", "0"], ["--at-level=0"], ["--at-level=-2"], ["-a", "0", "-u"],
     ["-t", "alpha", "-t", ""], ["-t", ""], ["-t", "", "-t", "!beta"], ["-m", "orders", "-m", ""], ["-t", "a", "-t", "a"],
     ["-t", "!x", "-t", ""], ["-m", "", "-m", "!stock"], ["-t", "alpha", "-m", "", "-t", "^$"],
+    # white space at the edge of a pattern is part of the pattern (search mode: "test_a " is not "test_a")
+    ["-t", "alpha "], ["-t", " alpha", "-m", "orders "], ["-t", "!alpha "], ["-m", " "], ["-t", "\tx\n"],
+    ["--layer", "wm.L1 "], ["--layer", " wm", "--layer", "!L2 "], ["-t", "a b", "-m", "!\tstock "],
 ]
 LAYER_NAME_SETS = [
     [UNIT, "wm.L1", "wm.L2"], ["wm.L1"], [UNIT], ["wm.L2", UNIT, "wm.L1", "other.Layer"], [],
@@ -404,6 +407,9 @@ def run_layers(ctx):
             if list(getattr(o, attr)) != want_p:
                 bad_glue = "options %r: %s patterns handed to the predicate are %r, given were %r" % (
                     args, flag, list(getattr(o, attr)), want_p)
+        if dedup and not ("-u" in args and "-f" not in args) and list(o.layer or []) != dedup:
+            bad_glue = "options %r: --layer patterns handed to the predicate are %r, given were %r" % (
+                args, list(o.layer or []), dedup)
         olv = [int(args[i + 1]) for i, a in enumerate(args) if a == "--only-level"]
         if olv and o.only_level != olv[-1]:
             bad_glue = "options %r leave only_level = %r: --only-level %d is not in force" % (args, o.only_level, olv[-1])
